@@ -131,4 +131,30 @@ def run(rule, gen):
                     x, y = snf.first_diff(a, b)
                     rule.violate(key, "used-rule collection treats `%s` differently in the two generators" % v, y.loc,
                                  "optimized: %s\nraw: %s" % (x.show(), y.show()))
+            # what surrounds the match (the implicit COMMENT / WHITESPACE use of normal rules, the work-list loop): every top-level
+            # statement that does not contain the match must be the same program on both sides (mutation scan survivor:
+            # `rule.ty() == RuleType::Normal` -> `!=` in one generator only)
+            def prologue(fn, m):
+                body = fn["value"]
+                stmts = [st for st in body.get("stmts", []) if not any(x is m for x in walk(st.get("init") or st.get("e") or {"k": "none"}))]
+                norm = snf.Normalizer(gen, path_hook=hook)
+                norm.vars = {}
+                for p_ in fn["params"]:
+                    norm.pat(p_)
+                out = []
+                for st in stmts:
+                    if st["k"] == "let":
+                        init = norm.expr(st["init"]) if "init" in st else snf.N(("noinit",), [])
+                        out.append(snf.N(("let",), [norm.pat(st["pat"]), init]))
+                    elif st["k"] == "expr":
+                        out.append(snf.N(("stmt",), [norm.expr(st["e"])]))
+                return snf.N(("prologue",), out)
+            pa, pb = prologue(fa, ma), prologue(fb, mb)
+            if pa == pb:
+                rule.inst("collect_used_rule: statements around the match", gen.loc(fa["value"].get("sp")), "ok", {"nodes_compared": pa.size()})
+            else:
+                x, y = snf.first_diff(pa, pb)
+                rule.violate("collect_used_rule: statements around the match", "the two generators differ in what they do before / around the "
+                             "match over the expression (implicit COMMENT / WHITESPACE use, work list)", y.loc,
+                             "optimized: %s\nraw: %s" % (x.show(), y.show()))
     return n
